@@ -338,8 +338,9 @@ class SFloat(Sym):
         m_hi = (1 - off) / D                # smallest possible distance up to the next integer
         if self.err == 0:
             robust = True
-        elif self.nearest and self.mag < 2 ** 52:
-            # integers on the lattice are exactly representable; every other lattice point is >= 1/D from an integer
+        elif self.is_xrep() and self.mag < 2 ** 52:
+            # an integer exact value is representable, hence computed exactly (nearest double / exact-when-representable);
+            # every other lattice point is >= 1/D from an integer
             robust = (off == 0 or m_lo > self.err) and m_hi > self.err and Fraction(1, D) > self.err
         else:
             robust = (m_lo >= self.err and m_lo > 0 and m_hi > self.err) or (m_lo > self.err and m_hi > self.err)
